@@ -7,7 +7,10 @@ IsEvent(op) == l <= Len(TraceLog) /\ TraceLog[l].op = op /\ l' = l + 1
 TFoot == IsEvent("footprint") /\ Footprint(E.staticIoBufs, E.globalsWritten, E.allowed, E.foreignCloses, E.raced)
 TSame == IsEvent("scenario")  /\ SameAsSerial(E.serial, E.concurrent)
 TInit == l = 1
-TNext == TFoot \/ TSame
+\* the one open finding of C19 (known_findings.json, C19-unknown-name-buffer): a race on the static name buffer for unknown
+\* type ids.  Enabled only if the finding is listed (E.listed is taken from the file by the check), only for that location
+TKnownRace == IsEvent("KnownRace") /\ E.listed /\ E.location = "global 'unknown'" /\ PrintT(<<"DEVIATION", "C19-unknown-name-buffer">>)
+TNext == TFoot \/ TSame \/ TKnownRace
 TSpec == TInit /\ [][TNext]_l
 Accepted == /\ PrintT(<<"MATCHED", TLCGet("stats").diameter - 1, Len(TraceLog)>>)
             /\ TLCGet("stats").diameter - 1 = Len(TraceLog)
